@@ -118,6 +118,7 @@ def guarded(fn):
 
 
 def load_outcome(data, obj, via):
+    del c13_impl.PROXY.epochs[:]
     if via == "path":
         fd, path = tempfile.mkstemp(prefix="verif-c14-")
         os.write(fd, data)
@@ -168,6 +169,9 @@ def run_load(c):
             excs[info] = excs.get(info, 0) + 1
         elif code in ("D", "H"):
             details.append([n, code, info])
+        if code == "H":
+            pts = pts[:len(codes)]  # one hang is enough; do not wait for the others
+            break
         if zfmt:
             # how much of the payload the standard decompressor gets out of the cut file
             import zlib
@@ -181,6 +185,8 @@ def run_load(c):
         extra = data if t["kind"] == "stream" else bytes((i * 131 + 7) % 256 for i in range(t["n"]))
         code, info = load_outcome(data + extra, obj, c.get("via", "bytesio"))
         tr.append([t, code, info])
+        if code == "H":
+            break
     full_payload = None
     if zfmt:
         import zlib
@@ -274,6 +280,8 @@ def run_memory(c):
                         "after": after, "after_recomputed": calls == [1], "strict_prefix": len(bad) < len(orig)})
             with open(path, "wb") as fh:
                 fh.write(orig)
+            if code.startswith("H"):
+                break
         return {"results": res}
     finally:
         shutil.rmtree(d, ignore_errors=True)
